@@ -328,7 +328,9 @@ func genHist(t *rapid.T, delHeavy bool, maxOps int) HistCase {
 				}
 			}
 			if op.Kind == "put" {
-				op.Val = rapid.SampledFrom([]model.Bytes{[]byte("v1"), []byte("v2"), []byte("a"), {}, {0}, []byte("zz")}).Draw(t, "val")
+				op.Val = rapid.SampledFrom([]model.Bytes{[]byte("v1"), []byte("v2"), []byte("a"), {}, {0}, []byte("zz"),
+					// long values that share their first 128 / 200 bytes (equal-timestamp ties are decided by the whole value)
+					longVal(128, "x"), longVal(128, "y"), longVal(200, ""), longVal(200, "z")}).Draw(t, "val")
 				if len(op.Val) == 0 && !c.Native {
 					c.ExcludedEmpty++
 					op.Val = model.Bytes("e")
@@ -477,4 +479,12 @@ func TestC10Remerge(t *testing.T) {
 		Rule: "C01 histories driven to quiescence (bounded rounds), then every stored blob is merged again into every instance: no LMDB transaction is recorded, localChanged=false, raw bytes identical, LastTxnID not above the last synced id (no echo upload); native and shadow, with and without header padding; " +
 			"non-trivial = >=2 instances exchanged >=1 snapshot each way before the write-free phase"},
 		func(t *rapid.T) HistCase { c := genHist(t, false, 24); c.ReMerge = true; return c }, checkC10Remerge)
+}
+
+func longVal(n int, tail string) model.Bytes {
+	b := make([]byte, 0, n+len(tail))
+	for i := 0; i < n; i++ {
+		b = append(b, 'L')
+	}
+	return append(b, tail...)
 }
